@@ -171,6 +171,8 @@ class Engine(ExprMixin, CallMixin, StmtMixin):
 
     def fn(self, name):
         def deco(f):
+            if name in self.vocab:      # two contract modules giving one spec name two meanings (Sort mismatch at best)
+                raise SpecError(f"spec function {name!r} is defined twice")
             self.vocab[name] = f
             return f
 
@@ -183,7 +185,7 @@ class Engine(ExprMixin, CallMixin, StmtMixin):
             if name in st.meta.get("reveal", ()):
                 return V(ret_ty, definition(*[a.z for a in args]))
             return V(ret_ty, fdecl(*[a.z for a in args]))
-        self.vocab[name] = f
+        self.fn(name)(f)
         self.opaque_defs[name] = (fdecl, definition)
 
     def axiom(self, group, z):
